@@ -1,7 +1,10 @@
 (* Model of pycaption/base.py: CaptionSet.adjust_caption_timing, merge_concurrent_captions,
-   merge (C19). Nodes are opaque identities (Z); a node created by the code itself
-   (CaptionNode.create_break()) is the distinguished identity brk = -1.
-   Times are exact rationals (Python int or float values, read exactly). *)
+   merge (C19), at VALUE level: a caption is (start, end, node values). Nodes are opaque values (Z);
+   every line break - one created by the code itself (CaptionNode.create_break()) or one that was
+   already among the input nodes - is the distinguished value brk = -1 (design/C19.md, decision 3).
+   Times are exact rationals (Python int or float values, read exactly).
+   Object identity (one Caption object listed under two languages or twice in one list) is modelled
+   in model/BaseObj.v, which is proved equal to this value model for every alias structure. *)
 From Coq Require Import List ZArith QArith Bool.
 From PV Require Import lib.Sx lib.Result.
 Import ListNotations.
@@ -11,10 +14,18 @@ Definition brk : Z := (-1)%Z.
 Record caption := mkCap { c_start : Q; c_end : Q; c_nodes : list Z }.
 
 (* ---- adjust_caption_timing ------------------------------------------------ *)
-(* for caption in captions:
-       caption.start = caption.start * rate_skew + offset
-       caption.end = caption.end * rate_skew + offset
-       if caption.start >= 0: out_captions.append(caption)                     *)
+(* adjusted = set()
+   for lang in self.get_languages():
+       out_captions = CaptionList()
+       for caption in self.get_captions(lang):
+           if id(caption) not in adjusted:          # repaired tree (fix 4016b86): once per OBJECT
+               adjusted.add(id(caption))
+               caption.start = caption.start * rate_skew + offset
+               caption.end = caption.end * rate_skew + offset
+           if caption.start >= 0: out_captions.append(caption)
+       self.set_captions(lang, out_captions)
+   On values (no object occurs twice) the `adjusted` set is invisible and the loop is the fold below;
+   BaseObj.adjust_objs is the same loop on a heap of objects with the `adjusted` set.        *)
 Definition retime (skew off : Q) (c : caption) : caption :=
   mkCap (Qred (c_start c * skew + off)) (Qred (c_end c * skew + off)) (c_nodes c).
 
@@ -34,12 +45,17 @@ Definition adjust (skew off : Q) (langs : list (list caption)) : list (list capt
 Definition merge_nodes (caps : list caption) : list Z :=
   fold_left (fun acc c => (match acc with [] => acc | _ => acc ++ [brk] end) ++ c_nodes c) caps [].
 
+(* Caption(...) refuses an empty node list with CaptionReadError("Node list cannot be empty"), the BASE class of
+   the documented reader errors: wire code 109 ("other exception"). Only reachable when every caption of a run
+   had its node list emptied after construction - outside the property's domain (nodes_nonempty). *)
+Definition ENodeListEmpty : err := ECrash 9.
+
 Definition merge_caps (caps : list caption) : result caption :=
   match caps with
-  | [] => Err IndexError
+  | [] => Err IndexError             (* captions[0]; unreachable from merge_lang (BaseFacts.merge_lang_total) *)
   | c0 :: _ =>
       match merge_nodes caps with
-      | [] => Err EInvalidInput        (* Caption() refuses an empty node list *)
+      | [] => Err ENodeListEmpty
       | ns => Ok (mkCap (c_start c0) (c_end c0) ns)
       end
   end.
